@@ -3,11 +3,13 @@ package rules
 
 import (
 	"encoding/json"
+	"sort"
 	"os"
 	"path/filepath"
 
 	"verif/tools/core"
 	"verif/tools/load"
+	"verif/tools/model"
 )
 
 // Ctx is what a property's rule set receives.
@@ -49,3 +51,19 @@ var (
 
 // newScratchReport creates a report that is never written (used to re-run a rule set as a lemma).
 func newScratchReport() *core.Report { return core.NewReport("scratch", "quick", "other") }
+
+// FinishFields turns every Policy-field role that a rule of this run asked for but that could not be bound to a
+// field into an undecided obligation.  Roles no rule of the property needs do not matter to it.
+func FinishFields(c *Ctx) {
+	F := model.FindFields(c.P)
+	miss := F.UsedMissing()
+	var roles []string
+	for r := range miss {
+		roles = append(roles, r)
+	}
+	sort.Strings(roles)
+	rule := c.R.Property + ".R1"
+	for _, r := range roles {
+		c.R.Unknown(rule, "field-role:"+r, "Policy field role "+r, "", "role not resolvable from the builder API: "+miss[r])
+	}
+}
